@@ -101,6 +101,50 @@ func RandomCFG(r *rng.R, p CFGParams) *Spec {
 	if p.Prec {
 		AddRandomPrec(s, r.Sub("prec"))
 	}
+	// names that differ only in letter case: the classic  %token NUMBER  /  number : ...  pair, or two such tokens
+	if r.Chance(1, 5) {
+		for ti := range s.Terms {
+			if s.Terms[ti].Name == "" {
+				continue
+			}
+			low := strings.ToLower(s.Terms[ti].Name)
+			up := strings.ToUpper(s.Terms[ti].Name)
+			cand := low
+			if cand == s.Terms[ti].Name {
+				cand = up
+			}
+			if cand == s.Terms[ti].Name {
+				continue
+			}
+			taken := false
+			for _, n := range s.NTs {
+				if n.Name == cand {
+					taken = true
+				}
+			}
+			for _, t := range s.Terms {
+				if t.Name == cand {
+					taken = true
+				}
+			}
+			if taken {
+				continue
+			}
+			if r.Chance(1, 2) || len(s.Terms) < 2 || reservedWord[strings.ToLower(cand)] {
+				// (a nonterminal's name is never emitted as an identifier; a token's name is, so it must not be a keyword)
+				s.NTs[r.Intn(len(s.NTs))].Name = cand
+			} else {
+				// a second token spelled the same but for case
+				for tj := range s.Terms {
+					if tj != ti && s.Terms[tj].Name != "" {
+						s.Terms[tj].Name = cand
+						break
+					}
+				}
+			}
+			break
+		}
+	}
 	// the documented default: no %start, the start symbol is the nonterminal called `start`
 	if r.Chance(1, 10) {
 		taken := false
@@ -870,4 +914,18 @@ func BlockCommands(n int) *Spec {
 	s := MustDSL(src)
 	s.Family = "block-commands"
 	return s
+}
+
+// reservedWord: names that cannot be token names because the generated file declares a constant of that name
+// (keywords and predeclared identifiers of Go and TypeScript) - a documented don't-care, not generated.
+var reservedWord = map[string]bool{}
+
+func init() {
+	for _, w := range strings.Fields(`break case chan const continue default defer else fallthrough for func go goto if import interface map
+		package range return select struct switch type var true false nil iota int string len cap new make append copy delete panic print println
+		abstract any as async await boolean class constructor debugger declare do enum export extends finally from function get implements
+		in instanceof is let module namespace never null number object of private protected public readonly require set static super symbol
+		this throw try typeof undefined unique unknown void while with yield then id num str`) {
+		reservedWord[w] = true
+	}
 }
